@@ -106,7 +106,7 @@ func init() {
 
 	// ---------------------------------------------------------------- C02
 	register("c02", Def{
-		Rule: "all sequences of length <= L over an alphabet of 15 instance kinds (chords and rests with values 1, 2, 1/2, 1/3, 2/3, 3/7, 5/4, [1,1/4], [1/3,1/3,1/3], 7/960, halfway cases 1/1920 and 3/640, " +
+		Rule: "all sequences of length <= L over an alphabet of 17 instance kinds (incl. a chord that rounds to 0 ticks, long fraction chains in the seeded part) (chords and rests with values 1, 2, 1/2, 1/3, 2/3, 3/7, 5/4, [1,1/4], [1/3,1/3,1/3], 7/960, halfway cases 1/1920 and 3/640, " +
 			"rest carrying bpm / key) plus seeded long sequences (<= 200 instances, fractions from a pool with denominators <= 64 and /960); quick L=2 + 200 random, thorough L=3 + 3000 random; --track 1",
 		Gen: func(c *Ctx) []Case {
 			rng := rand.New(rand.NewSource(c.Seed))
@@ -115,7 +115,8 @@ func init() {
 			alpha := []Inst{
 				ch(Frac{1, 1}), ch(Frac{2, 1}), ch(Frac{1, 2}), ch(Frac{1, 3}), ch(Frac{2, 3}), ch(Frac{3, 7}), ch(Frac{5, 4}),
 				ch(Frac{1, 1}, Frac{1, 4}), ch(Frac{1, 3}, Frac{1, 3}, Frac{1, 3}), ch(Frac{7, 960}), ch(Frac{3, 640}),
-				rs(Frac{1, 1}), rs(Frac{1, 3}), rs(Frac{1, 1920}),
+				ch(Frac{1, 4096}), // rounds to 0 ticks: struck and released at once, nothing shifts
+				rs(Frac{1, 1}), rs(Frac{1, 3}), rs(Frac{1, 1920}), rs(Frac{5, 7}),
 				{Rest: true, Vals: []Frac{{2, 3}}, BPM: 140, Key: "Eb"},
 			}
 			L, nr, maxLen := 2, 200, 60
@@ -139,7 +140,20 @@ func init() {
 			for i := 0; i < nr; i++ {
 				o := GenOpt{MaxLen: maxLen, RestP: 0.3, KeyP: 0.05, SettingP: 0.05, Fractions: true, MultiVals: true, MaxDeg: 7, BassP: 0.2,
 					Syms: []string{"", "m", "7", "maj7", "sus4"}, BigVals: i%5 == 0}
-				cs := Case{"doc": randomDoc(rng, o), "flags": Flags{}}
+				d := randomDoc(rng, o)
+				if i%6 == 1 { // one instance written as a long chain of fractions, another as a tiny one
+					den := []int{7, 256, 997, 1000, 9}[rng.Intn(5)]
+					k := rng.Intn(len(d))
+					d[k].Vals = nil
+					for j := 0; j < 8+rng.Intn(25); j++ {
+						d[k].Vals = append(d[k].Vals, Frac{1 + rng.Intn(den), den})
+					}
+					k2 := rng.Intn(len(d))
+					if k2 != k {
+						d[k2].Vals = []Frac{{1, []int{4096, 1921, 2000, 5000}[rng.Intn(4)]}}
+					}
+				}
+				cs := Case{"doc": d, "flags": Flags{}}
 				if i%4 == 3 { // the same timing law on several tracks (checked through the merged events)
 					cs["tracks"] = []int{2, 3, 5, 9}[(i/4)%4]
 				}
@@ -217,6 +231,28 @@ func init() {
 			cases = append(cases, Case{"doc": dyn, "flags": Flags{}, "tracks": 1})
 			for _, v := range dynamics {
 				cases = append(cases, Case{"doc": Doc{{Deg: "1", Sym: "", Vals: one()}, {Deg: "1", Sym: "", Vals: one(), Vel: "mf"}}, "flags": Flags{Vel: v}, "tracks": 1})
+			}
+			// every subset of the four override flags, on a document that sets everything on its first and on a later instance
+			full := Doc{{Deg: "1", Sym: "", Vals: one(), BPM: 150, Meter: &Frac{3, 4}, Vel: "pp", Key: "Eb", Txt: "first"},
+				{Rest: true, Vals: []Frac{{1, 2}}}, {Deg: "4", Sym: "m", Vals: one()},
+				{Deg: "5", Sym: "7", Vals: one(), BPM: 60, Meter: &Frac{6, 8}, Vel: "f", Key: "F#m", Mrk: "later"}, {Deg: "1", Sym: "", Vals: one()}}
+			bare := Doc{{Deg: "1", Sym: "", Vals: one()}, {Deg: "5", Sym: "", Vals: one()}}
+			for mask := 0; mask < 16; mask++ {
+				fl := Flags{}
+				if mask&1 != 0 {
+					fl.BPM = 77
+				}
+				if mask&2 != 0 {
+					fl.Meter = "5/8"
+				}
+				if mask&4 != 0 {
+					fl.Vel = "ff"
+				}
+				if mask&8 != 0 {
+					fl.Key = "Abm"
+					fl.Key = "Bbm"
+				}
+				cases = append(cases, Case{"doc": full, "flags": fl, "tracks": 1}, Case{"doc": bare, "flags": fl, "tracks": 1 + mask%3})
 			}
 			for i := 0; i < n; i++ {
 				o := GenOpt{MaxLen: 10, RestP: 0.3, KeyP: 0.3, SettingP: 0.3, TextP: 0.35, Fractions: rng.Intn(2) == 0, MultiVals: true, MaxDeg: 7, BassP: 0.1,
